@@ -410,10 +410,12 @@ func HeaderedReverseTopologicalOrdering(events []PDU, order TopologicalOrder) []
 		unwrapped := events[i]
 		input[i] = unwrapped
 	}
-	result := make([]PDU, len(input))
-	for i, e := range r.reverseTopologicalOrdering(input, order) {
-		result[i] = e
-	}
+	// The ordering lists every distinct event once, so it is shorter than the
+	// input when an event was supplied more than once: return it as it is
+	// rather than padding it to the input's length with nil entries.
+	ordered := r.reverseTopologicalOrdering(input, order)
+	result := make([]PDU, len(ordered))
+	copy(result, ordered)
 	return result
 }
 
